@@ -1,5 +1,6 @@
 from __future__ import annotations
 
+from copy import copy
 from typing import Optional
 
 from excel2pycl.src.cell import Cell
@@ -20,6 +21,7 @@ class Parser:
         self._entrypoint_cell_has_been_changed: bool = True
         self._excel_file_path: Optional[str] = None
         self._excel_file_path_has_been_changed: bool = True
+        self._safety_check_has_been_changed: bool = True
 
     def enable_safety_check(self) -> Parser:
         """
@@ -29,6 +31,7 @@ class Parser:
         Returns:
             Parser.
         """
+        self._safety_check_has_been_changed = self._safety_check_has_been_changed or not self._safety_check
         self._safety_check = True
         return self
 
@@ -39,6 +42,7 @@ class Parser:
         Returns:
             Parser.
         """
+        self._safety_check_has_been_changed = self._safety_check_has_been_changed or self._safety_check
         self._safety_check = False
         return self
 
@@ -66,7 +70,9 @@ class Parser:
         Returns:
             Parser.
         """
-        self._entrypoint_cell = cell
+        # keep the cell as it was given: translating fills in the value and resolves the title against one workbook
+        self._entrypoint_cell = copy(cell) if cell is not None else None
+        self._entrypoint_cell_has_been_changed = True
         return self
 
     def _translate(self) -> Parser:
@@ -81,7 +87,8 @@ class Parser:
             E2PyclSafetyException: If security check is enabled and suspicious fragments are found,
                 an exception will be thrown.
         """
-        if not self._excel_file_path_has_been_changed and not self._entrypoint_cell_has_been_changed:
+        if not self._excel_file_path_has_been_changed and not self._entrypoint_cell_has_been_changed \
+                and not self._safety_check_has_been_changed:
             return self
 
         if not self._excel_file_path:
@@ -96,7 +103,7 @@ class Parser:
         context._sheets_size = excel.get_sheets_size()
 
         if self._entrypoint_cell:
-            CellTranslator.translate(self._entrypoint_cell, excel, context)
+            CellTranslator.translate(copy(self._entrypoint_cell), excel, context)
         else:
             CellTranslator.translate_file(excel, context)
 
@@ -104,6 +111,7 @@ class Parser:
 
         self._excel_file_path_has_been_changed = False
         self._entrypoint_cell_has_been_changed = False
+        self._safety_check_has_been_changed = False
 
         return self
 
